@@ -486,6 +486,10 @@ func (an *Analysis) createType(typ types.Type, ctx context) Type {
 			str.Comments = fetchStructComments(ctx.rootPackage, name)
 			return str
 		} else {
+			// named pointers are refused before recursing : type P *P would never end
+			if _, isPointer := typ.Underlying().(*types.Pointer); isPointer {
+				panic("unsupported named type " + typ.String() + " (underlying " + typ.Underlying().String() + ")")
+			}
 			// otherwise, analyze the underlying type
 			under, ok := an.handleType(typ.Underlying(), ctx).(AnonymousType)
 			if !ok {
